@@ -3,8 +3,6 @@
 package verifh
 
 import (
-	"crypto/sha256"
-
 	"github.com/jamespfennell/gtfs"
 	"github.com/jamespfennell/gtfs/extensions/nyctalerts"
 	"github.com/jamespfennell/gtfs/extensions/nycttrips"
@@ -53,12 +51,15 @@ func hReadRealtime(r *gtfs.Realtime) {
 	for i := range r.Trips {
 		_ = r.Trips[i].GetVehicle()
 		if vr.Param("HASH", 0) == 1 {
-			r.Trips[i].Hash(sha256.New())
+			r.Trips[i].Hash(&vr.Sink{}) // each reader hashes into a sink of its own
 		}
 	}
 	for i := range r.Vehicles {
 		_ = r.Vehicles[i].GetID()
 		_ = r.Vehicles[i].GetTrip()
+		if vr.Param("HASH", 0) == 1 {
+			r.Vehicles[i].Hash(&vr.Sink{})
+		}
 	}
 }
 
